@@ -106,7 +106,7 @@ vproof! {
 //@ besteffort: yes
 //@ prop: C05
 //@ tier: thorough
-//@ cap: 3600
+//@ cap: 1500
 //@ funcs: Geometric::new (squaring loop for tiny p; agreement with the `pi == 1.0` shortcut of sample)
 //@ bounds: every p in (0, 2^-8); squaring loop unwound 60 times with the unwinding assertion ON
 //@ assumes: none
